@@ -130,6 +130,27 @@ class ExprHooks(ByteHooks):
             return None
         return ByteHooks.setitem(self, o, obj, idx, v)
 
+    # -- structural parameters are concrete -----------------------------------------------------------
+    def call(self, o, f, args, kwargs):
+        """widths and slice bounds determine the SHAPE of an expression: a symbolic one is enumerated over its feasible values"""
+        if f is ExprSlice and len(args) == 3 and (is_sym(args[1]) or is_sym(args[2])):
+            args = [args[0], o.path.pick_value(args[1], "slice start"), o.path.pick_value(args[2], "slice stop")]
+            return o.instantiate(ExprSlice, args, kwargs)
+        if f is ExprInt and len(args) == 2 and is_sym(args[1]):
+            return o.instantiate(ExprInt, [args[0], o.path.pick_value(args[1], "ExprInt size")], kwargs)
+        if f is ExprMem and len(args) == 2 and is_sym(args[1]):
+            return o.instantiate(ExprMem, [args[0], o.path.pick_value(args[1], "ExprMem size")], kwargs)
+        return ByteHooks.call(self, o, f, args, kwargs)
+
+    def builtin_method(self, o, obj, name, args, kwargs):
+        if isinstance(obj, slice) and name == "indices":
+            st = None if obj.start is None else o.path.pick_value(obj.start, "slice start")
+            sp = None if obj.stop is None else o.path.pick_value(obj.stop, "slice stop")
+            step = None if obj.step is None else o.path.pick_value(obj.step, "slice step")
+            n = o.path.pick_value(args[0], "length")
+            return slice(st, sp, step).indices(n)
+        return ByteHooks.builtin_method(self, o, obj, name, args, kwargs)
+
     def hash(self, o, x):
         if isinstance(x, Expr):
             from .terms import UF
